@@ -467,6 +467,7 @@ func runPlacements(w *harness.W, sess *vxh.Session, c plCase, sample bool) bool 
 		id     int // kitty image id as seen on the wire (learned at first upload)
 		needUp bool
 		fresh  bool // resized since the last frame: a Draw may still find the encoder busy
+		raced  bool // its last Draw was skipped because the encoder was busy
 	}
 	imgs := make([]*im, len(c.Images))
 	waitRedraw := func() bool {
@@ -647,6 +648,7 @@ func runPlacements(w *harness.W, sess *vxh.Session, c plCase, sample bool) bool 
 			for _, p := range wantPlace {
 				if imgs[p.img].fresh && !seenAt[fmt.Sprintf("%d,%d", p.col, p.row)] {
 					delete(next, p)
+					imgs[p.img].raced = true
 					w.Count("draws_skipped_while_encoder_busy", 1)
 					continue
 				}
@@ -743,12 +745,20 @@ func runPlacements(w *harness.W, sess *vxh.Session, c plCase, sample bool) bool 
 				if x.needUp {
 					// (image data encoded by earlier Resize calls that were never
 					// placed is sent along: wasteful, not a statement of C20)
+					if uploads[x.id] < 1 && x.raced {
+						// the harness drew while the encoder was still busy
+						// (loaded machine): what the next frame uploads then
+						// depends on where exactly the encoder was
+						w.Inconclusive("upload-after-a-draw-that-raced-with-the-encoder")
+						return true
+					}
 					if uploads[x.id] < 1 {
 						fail("upload-missing", fmt.Sprintf("image %d (wire id %d) was resized and placed: no complete upload in this frame", p.img, x.id))
 						return true
 					}
 					w.Max("uploads_for_one_placement", int64(uploads[x.id]))
 					x.needUp = false
+					x.raced = false
 					uploads[x.id] = 0
 				}
 				wantP = append(wantP, fmt.Sprintf("id%d@%d,%d", x.id, p.col, p.row))
